@@ -46,3 +46,8 @@ Lemma mixed_case_finishes :
             /\ forallb (kind_persists mixed_case) (c_funcs mixed_case) = true
             /\ length (f_outs f) = 4.
 Proof. eexists. split; [vm_compute; reflexivity|]. repeat split; vm_compute; reflexivity. Qed.
+
+Lemma mixed_case_valid :
+  valid_request mixed_case = true /\ storage_complete mixed_case = true /\ c_mut mixed_case = MNone
+  /\ (exists d, denote_run sym_body (c_funcs mixed_case) (c_inputs mixed_case) (c_internal mixed_case) = Ok d).
+Proof. repeat split; try (vm_compute; reflexivity). eexists. vm_compute. reflexivity. Qed.
